@@ -266,7 +266,9 @@ func C20(c *core.Ctx) {
 					case 1:
 						d := kj.Dir{K: "trx", Z: z, Desc: "food", Bk: []kj.Booking{{Cr: "Assets:Bank", Dr: "Expenses:Food", C: "CHF", Q: 1 + rng.Intn(20)}}}
 						if rng.Intn(3) == 0 {
-							d.Desc, d.Perf = "custody fee", []string{} // @performance(): an internal performance effect, not an external flow
+							// @performance(..): an internal performance effect, not an external flow - unallocated, or
+							// allocated to one or two commodities
+							d.Desc, d.Perf = "custody fee", [][]string{{}, {}, {secs[0]}, {secs[0], "CHF"}}[rng.Intn(4)]
 						}
 						j.Dirs = append(j.Dirs, d)
 					case 2:
